@@ -8,9 +8,11 @@
 //    9 xwait   client 0 before ~thread_pool: every other client thread has returned (PoolDefs.v xwait_ok)
 // The pool creates its own threads and blocks in std::condition_variable / std::thread::join.  Instead of
 // describing these calls with hooks, the harness *observes* them: while thread_pool.h is compiled the names
-// std::condition_variable and std::thread are mapped to std::pool_cv / std::pool_thread below, which hand the
-// baton back to the controller.  So a changed notify_one/notify_all, a missing notify, a join of the own
-// thread etc. are seen as they are in the source.  The harness contains no expected values.
+// std::mutex, std::condition_variable(_any) and std::thread are mapped to std::pool_mutex / pool_cv / pool_thread
+// below (API-complete stand-ins: any reasonable rewrite of the header compiles against them), which hand the baton
+// back to the controller.  So a changed notify_one/notify_all, a missing notify, a join of the own thread, user code
+// run under the lock etc. are seen as they are in the source; no private member of thread_pool is read.
+// The harness contains no expected values.
 #define VH_DEFINE_NEW
 #include "ctl.h"   // point_code table, common.h
 #include <cocls/future.h>
@@ -36,6 +38,7 @@ struct Ctl {
     int current = -1;
     std::vector<std::unique_ptr<Thr>> ths;
     long tokens = 0, sleepers = 0;
+    std::atomic<long> held{0};   // pool mutexes currently locked
     int next_worker = 0;
     bool active = false;
 
@@ -44,6 +47,7 @@ struct Ctl {
         ths.clear();
         for (int i = 0; i < nthreads; i++) ths.emplace_back(new Thr());
         tokens = sleepers = 0;
+        held = 0;
         next_worker = first_worker;
         current = -1;
         active = true;
@@ -89,9 +93,41 @@ static void thread_main(int id, std::function<void()> fn) {
 // ---- observing substitutes for the blocking primitives used by thread_pool.h ----
 namespace std {
 
+// std::mutex as seen by thread_pool.h: a real mutex that also tells the harness whether it is held (detection of
+// scheduling points / user code reached under the pool lock).  Works with lock_guard, unique_lock, scoped_lock.
+class pool_mutex {
+public:
+    using native_handle_type = std::mutex::native_handle_type;
+    constexpr pool_mutex() noexcept = default;
+    pool_mutex(const pool_mutex &) = delete;
+    pool_mutex &operator=(const pool_mutex &) = delete;
+    void lock() {
+        m.lock();
+        pctl::G.held++;
+    }
+    bool try_lock() {
+        if (!m.try_lock()) return false;
+        pctl::G.held++;
+        return true;
+    }
+    void unlock() {
+        pctl::G.held--;
+        m.unlock();
+    }
+    native_handle_type native_handle() { return m.native_handle(); }
+
+private:
+    std::mutex m;
+};
+
+// std::condition_variable / condition_variable_any as seen by thread_pool.h.  notify_all flags the threads sleeping
+// now, notify_one adds an anonymous token (PoolDefs.v).  Timed waits never time out here (the model has no clock):
+// they behave like the untimed forms, which is what a loop around a timed wait amounts to.
 class pool_cv {
 public:
-    // notify_all flags the threads sleeping now; notify_one adds an anonymous token (PoolDefs.v)
+    pool_cv() = default;
+    pool_cv(const pool_cv &) = delete;
+    pool_cv &operator=(const pool_cv &) = delete;
     void notify_one() noexcept {
         long flagged = 0;
         for (auto &t : pctl::G.ths) flagged += t->cv_sleep && t->cv_flag;
@@ -121,23 +157,76 @@ public:
     void wait(L &lk, P pred) {
         while (!pred()) wait(lk);
     }
+    template <typename L, typename R, typename Pd>
+    std::cv_status wait_for(L &lk, const std::chrono::duration<R, Pd> &) {
+        wait(lk);
+        return std::cv_status::no_timeout;
+    }
+    template <typename L, typename R, typename Pd, typename P>
+    bool wait_for(L &lk, const std::chrono::duration<R, Pd> &, P pred) {
+        wait(lk, std::move(pred));
+        return true;
+    }
+    template <typename L, typename C, typename D>
+    std::cv_status wait_until(L &lk, const std::chrono::time_point<C, D> &) {
+        wait(lk);
+        return std::cv_status::no_timeout;
+    }
+    template <typename L, typename C, typename D, typename P>
+    bool wait_until(L &lk, const std::chrono::time_point<C, D> &, P pred) {
+        wait(lk, std::move(pred));
+        return true;
+    }
+    // condition_variable_any: interruptible waits (no stop is ever requested by the scenarios)
+    template <typename L, typename P>
+    bool wait(L &lk, std::stop_token, P pred) {
+        wait(lk, std::move(pred));
+        return true;
+    }
+    template <typename L, typename R, typename Pd, typename P>
+    bool wait_for(L &lk, std::stop_token, const std::chrono::duration<R, Pd> &, P pred) {
+        wait(lk, std::move(pred));
+        return true;
+    }
+    template <typename L, typename C, typename D, typename P>
+    bool wait_until(L &lk, std::stop_token, const std::chrono::time_point<C, D> &, P pred) {
+        wait(lk, std::move(pred));
+        return true;
+    }
 };
 
+// std::thread as seen by thread_pool.h: the threads the pool creates are adopted by the controller (tid = first worker
+// tid + creation order); join() is a scheduling point that is enabled when the target has left its thread function.
 class pool_thread {
 public:
+    using id = std::thread::id;
+    using native_handle_type = std::thread::native_handle_type;
     pool_thread() noexcept = default;
-    template <typename F, typename = std::enable_if_t<!std::is_same_v<std::decay_t<F>, pool_thread>>>
-    explicit pool_thread(F &&f) {
+    template <typename F, typename... A, typename = std::enable_if_t<!std::is_same_v<std::remove_cvref_t<F>, pool_thread>>>
+    explicit pool_thread(F &&f, A &&...a) {
         idx = pctl::G.next_worker++;
-        th = std::thread(&pctl::thread_main, idx, std::function<void()>(std::forward<F>(f)));
+        auto pack = std::make_shared<std::tuple<std::decay_t<F>, std::decay_t<A>...>>(std::forward<F>(f), std::forward<A>(a)...);
+        th = std::thread(&pctl::thread_main, idx, std::function<void()>([pack] {
+                             std::apply([](auto &&fn, auto &&...args) { std::invoke(std::move(fn), std::move(args)...); },
+                                        std::move(*pack));
+                         }));
     }
-    pool_thread(pool_thread &&) noexcept = default;
-    pool_thread &operator=(pool_thread &&) noexcept = default;
-    std::thread::id get_id() const noexcept { return th.get_id(); }
+    pool_thread(const pool_thread &) = delete;
+    pool_thread &operator=(const pool_thread &) = delete;
+    pool_thread(pool_thread &&o) noexcept : th(std::move(o.th)), idx(std::exchange(o.idx, -1)) {}
+    pool_thread &operator=(pool_thread &&o) noexcept {
+        th = std::move(o.th);   // terminates when *this is joinable, as std::thread does
+        idx = std::exchange(o.idx, -1);
+        return *this;
+    }
+    ~pool_thread() = default;   // the member terminates when still joinable, as std::thread does
+    id get_id() const noexcept { return th.get_id(); }
     bool joinable() const noexcept { return th.joinable(); }
+    native_handle_type native_handle() { return th.native_handle(); }
     void join() {
         int target = idx;
-        pctl::yield(pctl::Blocked, 62, [target] { return pctl::G.ths[target]->state == pctl::Finished; });
+        if (pctl::t_id >= 0 && pctl::G.active && target >= 0)
+            pctl::yield(pctl::Blocked, 62, [target] { return pctl::G.ths[target]->state == pctl::Finished; });
         th.join();
     }
     void detach() { th.detach(); }
@@ -151,18 +240,20 @@ private:
     std::thread th;
     int idx = -1;
 };
+inline void swap(pool_thread &a, pool_thread &b) noexcept { a.swap(b); }
 
 }  // namespace std
 
-#define protected public
-#define private public
+// thread_pool.h is compiled against the observing substitutes; nothing of its private part is read by the harness
+#define mutex pool_mutex
+#define condition_variable_any pool_cv
 #define condition_variable pool_cv
 #define thread pool_thread
 #include <cocls/thread_pool.h>
 #undef thread
 #undef condition_variable
-#undef protected
-#undef private
+#undef condition_variable_any
+#undef mutex
 
 using namespace cocls;
 
@@ -193,14 +284,7 @@ struct ApiScope {
     ~ApiScope() { t_api--; }
 };
 
-static long pool_locked() {
-    if (!g_pool) return 0;
-    if (g_pool->_mx.try_lock()) {
-        g_pool->_mx.unlock();
-        return 0;
-    }
-    return 1;
-}
+static long pool_locked() { return pctl::G.held.load() > 0 ? 1 : 0; }
 
 void pctl::check_lock_free() {
     if (pool_locked()) {
